@@ -78,7 +78,7 @@ impl Stats {
     /// # Ok::<(),error::CIError>(())
     /// ```
     pub fn ci(&self, confidence: Confidence, quantile: f64) -> CIResult<Interval<usize>> {
-        if quantile <= 0. || 1. <= quantile {
+        if !(0. < quantile && quantile < 1.) {
             return Err(error::CIError::InvalidQuantile(quantile));
         }
 
@@ -145,7 +145,7 @@ impl Stats {
             return Err(error::CIError::TooFewSamples(self.population));
         }
         #[allow(clippy::manual_range_contains)]
-        if quantile < 0. || 1. < quantile {
+        if !(0. <= quantile && quantile <= 1.) {
             return Err(error::CIError::InvalidQuantile(quantile));
         }
         let index = (quantile * self.population as f64).floor() as usize;
